@@ -30,6 +30,37 @@ IMUT_ALLOW = {
 BENIGN_LEAF = re.compile(r'^alias:<u64 as core::num::ZeroablePrimitive>::NonZeroInner$')
 
 
+def _result_unused(e):
+    """the local receiving this call's result is not read anywhere else in the body"""
+    t = e.term or {}
+    dest = t.get('dest')
+    if not dest or dest.get('pr'):
+        return False
+    loc = dest['l']
+
+    def uses(x, skip):
+        if x is skip:
+            return 0
+        if isinstance(x, dict):
+            n = 1 if x.get('l') == loc and 'pr' in x else 0
+            return n + sum(uses(v, skip) for v in x.values())
+        if isinstance(x, list):
+            return sum(uses(v, skip) for v in x)
+        return 0
+    total = 0
+    for b in e.fn.blocks:
+        for st_ in b['stmts']:
+            total += uses(st_.get('rv'), None)
+            if st_.get('k') == 'assign' and st_['p'].get('l') == loc and st_['p'].get('pr'):
+                total += 1
+        tt = b['term']
+        if tt is t:
+            total += uses({k: v for k, v in tt.items() if k != 'dest'}, None)
+        else:
+            total += uses(tt, None)
+    return total == 0
+
+
 def atomic_ops(F):
     """every call of an atomic operation in the crate: (fn, bb, op, receiver field names, ordering, term)"""
     out = []
@@ -71,6 +102,23 @@ def run(chk, tier):
         E10.counting_discipline(chk, F, 'R10.6', cfg, efn, erows)
         ops = atomic_ops(F)
         rmw_per_field = {}
+        # write-only statistics: an atomic other than the two position counters that is only ever advanced / stored, with the result
+        # thrown away, and never read anywhere in the crate, cannot influence any call or verdict
+        by_field = {}
+        for fn, bb, op, names, ordering, delta, e in ops:
+            if names:
+                by_field.setdefault(names[-1], []).append((fn, op, e))
+        write_only = set()
+        for field, lst in by_field.items():
+            if field in ('actual_count', 'next_ordered_call_index'):
+                continue
+            if all(op in ('fetch_add', 'fetch_sub', 'store', 'fetch_or', 'fetch_and', 'fetch_max', 'fetch_min') and _result_unused(e) for _, op, e in lst):
+                write_only.add(field)
+        for fn, bb, op, names, ordering, delta, e in ops:
+            if names and names[-1] in write_only:
+                chk.ob('R10.1', 'atomic `%s` is a write-only statistic (advanced with the result discarded, never read): it carries no position' % names[-1], True, config=cfg, fn=fn,
+                       site='atomic:%s:write-only' % names[-1])
+        ops = [o for o in ops if not (o[3] and o[3][-1] in write_only)]
         for fn, bb, op, names, ordering, delta, e in ops:
             chk.call_sites += 1
             field = names[-1] if names else '?'
@@ -128,6 +176,8 @@ def run(chk, tier):
                             continue
                         nleaf += 1
                         allow = IMUT_ALLOW.get((a, f['name']))
+                        if allow is None and f['name'] in write_only and re.search(r'^core::sync::atomic::Atomic\w*$', x):
+                            allow = [r'^core::sync::atomic::Atomic\w*$']      # a write-only statistic, see R10.1
                         ok = allow is not None and any(re.search(rx, x) for rx in allow)
                         chk.ob('R10.3', 'interior mutability reachable from the mock: %s.%s holds %s' % (a, f['name'], x.split('(')[0]), ok, config=cfg,
                                fn=None, site='imut:%s.%s' % (a, f['name']), what='unexpected shared mutable state: %s' % x[:60],
